@@ -57,7 +57,7 @@ def check_case(acc: Acc, case):
     transport, T, R = case["transport"], case["T"], case["R"]
     if not is_trivial(case):
         acc.nontrivial(transport, case.get("keep"), T, R, repr(case["script"]), repr(case.get("connect")),
-                       case.get("latency", 0), case.get("api", False))
+                       case.get("latency", 0), case.get("api", False), case.get("host"))
     obs = netcase.run_single(case)
     out = obs.outcome
     fails = []
@@ -167,7 +167,8 @@ def hyp_job(job):
         R = draw(st.integers(0, 6))
         case = {"transport": transport, "keep": draw(st.booleans()), "T": draw(st.sampled_from((0.5, 1.0, 2.0, 4.0, 5.0, 8.0, 30.0))),
                 "R": R, "script": draw(st.lists(action(transport), min_size=0, max_size=R + 2)),
-                "latency": draw(st.integers(0, 3)), "api": draw(st.booleans())}
+                "latency": draw(st.integers(0, 3)), "api": draw(st.booleans()),
+                "host": draw(st.sampled_from(netcase.HOSTS[:1] * 3 + netcase.HOSTS))}
         if transport == "tcp":
             case["connect"] = draw(st.lists(st.sampled_from(("ok", "ok", "refused", "unreachable", "hangs", "timeout")),
                                             max_size=R + 1))
